@@ -282,6 +282,7 @@ func (w *World) finalOracles() {
 		// asynchronous requests accepted before the stop request must not be executed twice; lost ones are legal now
 	} else if stopWanted && w.viol["C06"] == nil && w.ph != phDone && w.s.StopWhy() != "step-cap" && w.s.StopWhy() != "panic" {
 		w.violate("C06", "hang", "shutdown was requested but Run did not return; alive: %v", w.s.Alive())
+		w.stopCtxHang()
 	}
 	// sanity of the harness itself
 	names := []string{}
@@ -312,4 +313,13 @@ func (w *World) startFault() bool {
 		}
 	}
 	return false
+}
+
+// stopCtxHang: a Stop whose context had ended returned the context's error, and
+// the engine never shut down afterwards: the context's end cancelled (or
+// prevented) the shutdown, which C19 rules out.
+func (w *World) stopCtxHang() {
+	if w.stopCtxErrSeen {
+		w.violate("C19", "stop-ctx-error-without-shutdown", "Stop returned the error of its ended context, and the engine never shut down afterwards (OnShutdown calls: %d, Run returned: %v)", w.shutdownCount, w.runDone)
+	}
 }
